@@ -473,8 +473,9 @@ def _load_json(
     # and can also cause failure of
     # the assertion below
     if load_order:
-        old_reordering = bdd.configure(
+        config = bdd.configure(
             reordering=False)
+        old_reordering = config['reordering']
     try:
         for line in fd:
             d = _parse_line(line)
@@ -494,6 +495,9 @@ def _load_json(
         for uid in cache:
             u = _node_from_int(int(uid), bdd, cache)
             bdd.decref(u, _direct=True)
+        if load_order:
+            bdd.configure(
+                reordering=old_reordering)
         raise
     # rm refs to cached nodes
     for uid in cache:
